@@ -344,7 +344,11 @@ func (c *c19) feedLinkType(ru *fw.Rule, key string, s c19feed) {
 	}
 	// style A: a variable holding the capture header's link type
 	var reads, others []string
+	var vals []ssa.Value
 	for _, v := range c.varValues(idx) {
+		vals = append(vals, c.resultValues(v, 0)...)
+	}
+	for _, v := range vals {
 		if _, ok := c19constInt(v); ok {
 			continue // initial value
 		}
@@ -656,6 +660,27 @@ func (c *c19) ruleFlow() {
 		return
 	}
 	all := fw.WithClosures(ff)
+	// package functions fieldFlows' work was moved into (closure -> function, extracted helpers) are
+	// read as part of it: their parameters stand for the arguments at the call site
+	helperSites := map[*ssa.Function][]*ssa.Call{}
+	var helpers []*ssa.Function
+	for i := 0; i < len(all) && len(all) < 200; i++ {
+		fw.EachInstr(all[i], func(ins ssa.Instruction) {
+			cl, ok := ins.(*ssa.Call)
+			if !ok || cl.Common().IsInvoke() {
+				return
+			}
+			f := cl.Common().StaticCallee()
+			if f == nil || f == ff || f.Parent() != nil || f.Blocks == nil || pkgRel(f) != c19PCAP || len(f.Params) != len(cl.Common().Args) {
+				return
+			}
+			if helperSites[f] == nil {
+				helpers = append(helpers, f)
+				all = append(all, fw.WithClosures(f)...)
+			}
+			helperSites[f] = append(helperSites[f], cl)
+		})
+	}
 	// the function that emits one direction
 	var F *ssa.Function
 	tdI, tsiI := -1, -1
@@ -680,6 +705,41 @@ func (c *c19) ruleFlow() {
 		if types.Identical(pa.Type(), tin) {
 			tsiI = i
 		}
+	}
+	env := map[*ssa.Parameter]string{}
+	oldSubst := c.subst
+	c.subst = env
+	defer func() { c.subst = oldSubst }()
+	for _, h := range helpers {
+		for i, pa := range h.Params {
+			if h == F && (i == tdI || i == tsiI) {
+				continue
+			}
+			sigs := map[string]bool{}
+			for _, site := range helperSites[h] {
+				sigs[c.sig(site.Common().Args[i])] = true
+			}
+			if len(sigs) == 1 {
+				for s := range sigs {
+					env[pa] = s
+				}
+			}
+		}
+	}
+	// chain through helpers with a single call site
+	chain := func(ins ssa.Instruction) []ssa.Instruction {
+		var out []ssa.Instruction
+		for ins != nil && len(out) < 16 {
+			out = append(out, ins)
+			next := c.liftOnce(ins)
+			if next == nil {
+				if sites := helperSites[ins.Parent()]; len(sites) == 1 {
+					next = sites[0]
+				}
+			}
+			ins = next
+		}
+		return out
 	}
 	td := fmt.Sprintf("param#%d", tdI)
 	reader := func(src string) string { return "pkg/bitio.NewBitReader(" + src + ",-1)" }
@@ -777,13 +837,13 @@ func (c *c19) ruleFlow() {
 			sides[side] = true
 			// enclosing field names
 			var names []string
-			for _, up := range c.chain(cl)[1:] {
+			for _, up := range chain(cl)[1:] {
 				if _, n, ok := c.fieldRead(up.(ssa.Value)); ok {
 					names = append(names, n)
 				}
 			}
 			var sel []string
-			for _, up := range c.chain(cl) {
+			for _, up := range chain(cl) {
 				for _, cd := range c19structConds(up.Block()) {
 					if !c19isRangeCond(cd) {
 						sel = append(sel, c.sig(cd.v))
@@ -848,10 +908,12 @@ func (c *c19) ruleFlow() {
 		ru.Fail("ipv4:ipv4_packet", c.pos(ff), "recorded reassembled datagrams are not exposed as ipv4_packet fields")
 	}
 	var arrays []string
-	for _, cl := range fw.CallsIn(ff) {
-		if v, ok := cl.(*ssa.Call); ok {
-			if m, n, ok := c.fieldRead(v); ok && m == "FieldArray" {
-				arrays = append(arrays, n)
+	for _, fn := range append([]*ssa.Function{ff}, helpers...) {
+		for _, cl := range fw.CallsIn(fn) {
+			if v, ok := cl.(*ssa.Call); ok {
+				if m, n, ok := c.fieldRead(v); ok && m == "FieldArray" {
+					arrays = append(arrays, n)
+				}
 			}
 		}
 	}
@@ -1023,4 +1085,38 @@ func anyIdent(nodes []ast.Node) (*ast.Ident, bool) {
 		}
 	}
 	return nil, false
+}
+
+// resultValues: a value that is result #i of a function of the pcap package stands for what that
+// function returns (phis expanded); anything else stands for itself.
+func (c *c19) resultValues(v ssa.Value, d int) []ssa.Value {
+	x := c.origin(v)
+	var call *ssa.Call
+	idx := 0
+	if ex, ok := x.(*ssa.Extract); ok {
+		call, _ = ex.Tuple.(*ssa.Call)
+		idx = ex.Index
+	} else if cl, ok := x.(*ssa.Call); ok {
+		call = cl
+	}
+	if call == nil || call.Common().IsInvoke() || d > 3 {
+		return []ssa.Value{v}
+	}
+	f := call.Common().StaticCallee()
+	if f == nil || f.Blocks == nil || pkgRel(f) != c19PCAP || idx >= f.Signature.Results().Len() {
+		return []ssa.Value{v}
+	}
+	var out []ssa.Value
+	for _, ret := range returnsOf(f) {
+		if idx >= len(ret.Results) {
+			continue
+		}
+		for _, lf := range c19leaves(c.origin(ret.Results[idx]), nil) {
+			out = append(out, c.resultValues(lf.v, d+1)...)
+		}
+	}
+	if len(out) == 0 {
+		return []ssa.Value{v}
+	}
+	return out
 }
